@@ -119,6 +119,9 @@ Inductive case :=
 | CaseEq (w : bytes) (tests : list (bytes * bool))
   (* CacheKey.Hash preimage and normalizeKeyScope *)
 | CaseHash (q : question) (cd : bool) (p : option scope) (pre : bytes) (norm : option scope)
+  (* exhaustive small scope (thorough tier): every question of a finite family with the preimage the production
+     wire hasher was fed for it (wire name, type, class, CD, scope, observed preimage) *)
+| CaseInj (items : list (bytes * N * N * bool * option scope * bytes))
   (* a history on one real Cache *)
 | CaseHist (pol : policy) (ops : list op).
 
@@ -241,6 +244,9 @@ Definition check_case (c : case) : bool :=
   | CaseEq w tests => forallb (fun t => Bool.eqb (wire_equals_pres w (fst t)) (snd t)) tests
   | CaseHash q cd p pre norm =>
       bytes_eqb (cachekey_pre q cd p) pre && oscope_eqb (normalize_scope p) norm
+  | CaseInj items =>
+      forallb (fun it => let '(w, qt, qc, cd, p, pre) := it in
+                         obytes_eqb (pre_keywirewithprefix w qt qc cd p) (Some pre)) items
   | CaseHist pol ops => run pol 0 (empty_store KB) ops
   end.
 
@@ -453,5 +459,14 @@ Definition spec_case (c : case) : bool :=
       forallb (fun t => Bool.eqb (snd t)
                           (match pres_of_wire w with Some n => fold_eqb n (fst t) | None => false end)) tests
   | CaseHash q cd p pre norm => true
+  | CaseInj items =>
+      (* two questions of the family share a preimage exactly when they are the same question: same name under
+         the A-Z fold, type, class, CD partition and normalised scope *)
+      let xs := map (fun it => let '(w, qt, qc, cd, p, pre) := it in
+                               (option_map fold (pres_of_wire w), qt, qc, cd, normalize_scope p, pre)) items in
+      forallb (fun a => let '(na, ta, ca, cda, pa, prea) := a in
+                 forallb (fun b => let '(nb, tb, cb, cdb, pb, preb) := b in
+                            Bool.eqb (bytes_eqb prea preb)
+                                     (obytes_eqb na nb && (ta =? tb) && (ca =? cb) && Bool.eqb cda cdb && oscope_eqb pa pb)) xs) xs
   | CaseHist pol ops => spec_run pol (mk_ss [] [] [] []) ops && purge_spec [] ops
   end.
